@@ -1364,7 +1364,7 @@ class FileSet:
             if value is None:
                 continue
 
-            if forbidden.match(value):
+            if forbidden.fullmatch(value):
                 return False
 
         return True
